@@ -89,10 +89,11 @@ def step (cs : CaseSt) (op obs : String) : CaseSt × R :=
     | some (d, t, resp) =>
       let (m, clause, br) : String × String × String := match d, resp with
         | .handler id, some rp =>
-          (s!"status={rp.status} xh={id} saw={id}:{r.method}:{r.path}:same:{n}:{fnv r.body} bodysum={fnv r.body} echo={if rp.body == id :: r.body then 1 else 0} trace={traceStr t}",
+          -- handlers with id % 5 = 4 set no Content-Type and no status (implicit 200, type sniffed by net/http from the body's first bytes)
+          (s!"status={if id % 5 == 4 then 200 else rp.status} xh={id} saw={id}:{r.method}:{r.path}:same:{n}:{fnv r.body} bodysum={fnv r.body} echo={if rp.body == id :: r.body then 1 else 0} trace={traceStr t} ct={if id % 5 == 4 then "text/html;_charset=utf-8" else "application/x-tv"}",
            if l == .https then "C17.https_routes_served" else "C17.routes_and_middleware", s!"req.{if l == .https then "https" else "http"}.hit")
-        | .notFound, _ => (s!"status=404 xh=- saw=none bodysum={fnv r.body} echo=0 trace=none", "C17.others_rejected", "req.404")
-        | .methodNotAllowed, _ => (s!"status=405 xh=- saw=none bodysum={fnv r.body} echo=0 trace=none", "C17.others_rejected", "req.405")
+        | .notFound, _ => (s!"status=404 xh=- saw=none bodysum={fnv r.body} echo=0 trace=none ct=text/plain;_charset=utf-8", "C17.others_rejected", "req.404")
+        | .methodNotAllowed, _ => (s!"status=405 xh=- saw=none bodysum={fnv r.body} echo=0 trace=none ct=text/plain;_charset=utf-8", "C17.others_rejected", "req.405")
         | _, _ => ("?", "protocol", "bad")
       -- refine the clause: which part of the observation differs
       let o (k : String) := getF ofs k
@@ -100,7 +101,7 @@ def step (cs : CaseSt) (op obs : String) : CaseSt × R :=
       let clause2 :=
         if o "saw" != getF mfs "saw" && o "status" == getF mfs "status" then "C17.handler_sees_same_request"
         else if o "trace" != getF mfs "trace" && o "status" == getF mfs "status" then "C17.bundle_order"
-        else if o "echo" != getF mfs "echo" && o "status" == getF mfs "status" then "C17.client_sees_same_response"
+        else if (o "echo" != getF mfs "echo" || o "ct" != getF mfs "ct") && o "status" == getF mfs "status" then "C17.client_sees_same_response"
         else clause
       ({ cs with text := cs.text ++ ";" ++ op, feats := cs.feats + (if br == "req.404" then 0 else 1) },
        { model := m, mon := if obs == m then [] else [clause2], branch := br })
